@@ -65,13 +65,15 @@ def strict_positions(ctx, labels, start, stop, step):
     return list(range(a, b - 1, step))
 
 
-def slice_1d(ctx, n, lkind, order, sk, ek, step, bkind, via='getitem'):
+def slice_1d(ctx, n, lkind, order, sk, ek, step, bkind, via='getitem', prime=False):
     """1-D array, label slice on a monotonic / non-monotonic / str axis"""
     labels = ctx.labels(lkind, n, 'l', order=order if n >= 2 else None)
     start = _bound(ctx, sk, bkind, 'start')
     stop = _bound(ctx, ek, bkind, 'stop')
     cells = ctx.cells('f', n, 'v')
     a = ctx.mk(['x'], [labels], cells, lkinds=[lkind])
+    if prime:      # the axis has answered is_monotonic() before: its cached state must not matter
+        a.axes[0].is_monotonic()
     ref = Ref(['x'], [labels], cells)
     sl = slice(start, stop, step)
     if via == 'getitem':
@@ -186,6 +188,9 @@ def templates():
                                 tier = 'thorough'
                             add('mono-%s%s-n%d-%s-%s-%s-step%s' % (lkind, bkind, n, order, sk, ek, step), 'slice_1d', tier,
                                 cost=0.05 * (n + 1) ** 2, n=n, lkind=lkind, order=order, sk=sk, ek=ek, step=step, bkind=bkind)
+    for lkind, order in (('i', 'inc'), ('i', 'dec'), ('f', 'dec'), ('U', None), ('i', 'nonmono')):
+        for step in STEPS:
+            add('primed-%s-%s-step%s' % (lkind, order, step), 'slice_1d', cost=0.8, n=3, lkind=lkind, order=order, sk='sym', ek='sym', step=step, bkind=lkind, prime=True)
     # spellings
     for via in ('take', 'loc', 'sel'):
         for step in (None, -1):
